@@ -321,11 +321,26 @@ func init() {
 			if len(a) > 4 {
 				kinds = a[4]
 			}
-			r := wsflate.NewReader(mk(kinds[0], unhx(a[1])), flateDec)
+			// flags: R = the decompressor offers Reset(io.Reader) (wsflate.ReadResetter), C = the history ends with Close()
+			flags := ""
+			if len(a) > 5 {
+				flags = a[5]
+			}
+			dec := flateDec
+			if strings.Contains(flags, "R") {
+				dec = func(r io.Reader) wsflate.Decompressor { return &resetDec{flate.NewReader(r)} }
+			}
+			r := wsflate.NewReader(mk(kinds[0], unhx(a[1])), dec)
 			io.ReadFull(r, make([]byte, n))
+			if strings.Contains(flags, "C") {
+				r.Close()
+			}
 			r.Reset(mk(kinds[1], unhx(a[3])))
 			ga, ea := io.ReadAll(r)
-			gb, eb := io.ReadAll(wsflate.NewReader(mk(kinds[1], unhx(a[3])), flateDec))
+			if ea == nil {
+				ea = r.Err()
+			}
+			gb, eb := io.ReadAll(wsflate.NewReader(mk(kinds[1], unhx(a[3])), dec))
 			sa := fmt.Sprintf("%s/%s", hx(ga), b2s(ea != nil))
 			sb := fmt.Sprintf("%s/%s", hx(gb), b2s(eb != nil))
 			return fmt.Sprintf("same=%d a=%s b=%s", b2i(sa == sb), sa, sb)
@@ -334,6 +349,13 @@ func init() {
 	}
 	register("C18", genC18)
 }
+
+// resetDec: compress/flate's reader behind wsflate.ReadResetter (Reset(io.Reader)).
+type resetDec struct{ rc io.ReadCloser }
+
+func (d *resetDec) Read(p []byte) (int, error) { return d.rc.Read(p) }
+func (d *resetDec) Close() error               { return d.rc.Close() }
+func (d *resetDec) Reset(r io.Reader)          { d.rc.(flate.Resetter).Reset(r, nil) }
 
 func genC18(tier string, r *rng) {
 	_ = rand.Int
@@ -433,5 +455,11 @@ func genC18(tier string, r *rng) {
 			run(fmt.Sprintf("rst fr %s %d %s pb", hx(comp(h)), len(h), hx(comp(af))))
 		}
 		run(fmt.Sprintf("rst fr %s 1 %s", hx([]byte{0xff, 0xff, 0xff}), hx(comp(h)))) // corrupt history
+		// corrupt or cut histories ended by Close(), decompressors with and without Reset(io.Reader)
+		for _, fl := range []string{"C", "R", "RC"} {
+			run(fmt.Sprintf("rst fr %s 4 %s bb %s", hx([]byte{0xff, 0xff, 0xff}), hx(comp(h)), fl))
+			run(fmt.Sprintf("rst fr %s %d %s pb %s", hx(comp(h)[:len(comp(h))/2]), len(h), hx(comp(h)), fl))
+			run(fmt.Sprintf("rst fr %s %d %s bp %s", hx(comp(h)), len(h)/2, hx(comp(h)), fl))
+		}
 	}
 }
